@@ -14,6 +14,7 @@
 package metadata
 
 import (
+	"os"
 	"regexp"
 
 	"github.com/uber/kraken/core"
@@ -58,6 +59,12 @@ func (m *TorrentMeta) Serialize() ([]byte, error) {
 
 // Deserialize loads b into m.
 func (m *TorrentMeta) Deserialize(b []byte) error {
+	if len(b) == 0 {
+		// The file is created and written in two steps, so a crash in between leaves it empty.
+		// An empty file holds no metainfo: report it as missing, so that callers regenerate it
+		// instead of failing on it forever.
+		return os.ErrNotExist
+	}
 	mi, err := core.DeserializeMetaInfo(b)
 	if err != nil {
 		return err
